@@ -1,6 +1,7 @@
 /- Driver for the argument validation (C19). -/
 import Paho.Driver.Common
 import Paho.Model.Validate
+import Paho.Model.SubArgs
 namespace Paho.Driver
 open Paho
 
@@ -22,7 +23,73 @@ def showExc : Option Exc → String
   | some .unicodeError => "UnicodeDecodeError"
   | some .malformedPacket => "MalformedPacket"
 
+/-- second component: `i<int>` or `o<options byte>` -/
+def parseSecond (s : String) : Option (Second Nat) :=
+  if s.startsWith "i" then (s.drop 1).toInt?.map .int
+  else if s.startsWith "o" then (s.drop 1).toNat?.map .opts
+  else none
+
+/-- the `options=` argument: `-` absent, `o<byte>` a SubscribeOptions object, `x` some other object -/
+def parseOptArg (s : String) : Option (OptArg Nat) :=
+  if s = "-" then some .none
+  else if s = "x" then some .other
+  else if s.startsWith "o" then (s.drop 1).toNat?.map .opts
+  else none
+
+def parsePairs (s : String) : Option (List (Bytes × Second Nat)) :=
+  if s = "-" then some []
+  else (s.splitOn ",").mapM fun e =>
+    match e.splitOn ":" with
+    | [h, x] => do let b ← parseHex h; let y ← parseSecond x; pure (b, y)
+    | _ => none
+
+def showEntry : Entry Nat → String
+  | .qos q => toString q
+  | .opts o => toString o
+
+/-- canonical short form of a filter in observations (long ones: length and the first four bytes) -/
+def shortHex (b : Bytes) : String :=
+  if b.length > 40 then s!"L{b.length}." ++ toHex (b.take 4)
+  else if b.isEmpty then "-" else toHex b
+
+def showSub : Except Exc (List (Bytes × Entry Nat)) → String
+  | .ok l => "ok " ++ ",".intercalate (l.map fun e => shortHex e.1 ++ ":" ++ showEntry e.2)
+  | .error e => showExc (some e)
+
+def showUnsub : Except Exc (List Bytes) → String
+  | .ok l => "ok " ++ ",".intercalate (l.map shortHex)
+  | .error e => showExc (some e)
+
+def hexOrEmpty (s : String) : Option Bytes := if s = "-" then some [] else parseHex s
+
 def validateStep (u : Unit) : List String → Unit × String
+  | ["sub", proto, "str", t, qos, opt] =>
+    match proto.toNat?, hexOrEmpty t, qos.toInt?, parseOptArg opt with
+    | some p, some b, some q, some o => (u, showSub (Sub.normalize p (.str b) q o))
+    | _, _, _, _ => (u, "bad-op")
+  | ["sub", proto, "tuple", t, x, qos, opt] =>
+    match proto.toNat?, hexOrEmpty t, parseSecond x, qos.toInt?, parseOptArg opt with
+    | some p, some b, some y, some q, some o => (u, showSub (Sub.normalize p (.tuple b y) q o))
+    | _, _, _, _, _ => (u, "bad-op")
+  | ["sub", proto, "list", l, qos, opt] =>
+    match proto.toNat?, parsePairs l, qos.toInt?, parseOptArg opt with
+    | some p, some ps, some q, some o => (u, showSub (Sub.normalize p (.list ps) q o))
+    | _, _, _, _ => (u, "bad-op")
+  | ["sub", proto, "none", qos, opt] =>
+    match proto.toNat?, qos.toInt?, parseOptArg opt with
+    | some p, some q, some o => (u, showSub (Sub.normalize p (.none : TopicForm Nat) q o))
+    | _, _, _ => (u, "bad-op")
+  | ["unsub", "none"] => (u, showUnsub (unsubNormalize .none))
+  | ["unsub", "other"] => (u, showUnsub (unsubNormalize .other))
+  | ["unsub", "str", t] =>
+    match hexOrEmpty t with
+    | some b => (u, showUnsub (unsubNormalize (.str b)))
+    | none => (u, "bad-op")
+  | ["unsub", "list", l] =>
+    if l = "-" then (u, showUnsub (unsubNormalize (.list [])))
+    else match (l.splitOn ",").mapM hexOrEmpty with
+      | some bs => (u, showUnsub (unsubNormalize (.list bs)))
+      | none => (u, "bad-op")
   | ["filter", s] =>
     match parseHex s with
     | some b => (u, showBool (filterCheck b))
